@@ -1,5 +1,6 @@
 SPECIFICATION Spec
 CONSTANTS TokBoost = 0
   SubjBoost = 0
-  Fams = {"ext", "extop", "extbr"}
+  Fams = {"core", "brk", "cls", "clsall", "nocase", "utf", "extoff", "extop", "extmix", "extbr", "fname", "path"}
 INVARIANTS ModeIrrelevance LiteralLaw EmitInv
+VIEW StateKey
